@@ -35,6 +35,7 @@ def gen_plan(rng, tier: str, idx: int) -> dict:
         "qgen": rng.choice([0, 0, 1]),
         "twin": rng.random() < 0.5 and script != [["all"]],
     }
+    plan["idents"] = W.gen_idents(rng, len(kernels))
     return plan
 
 
@@ -52,7 +53,7 @@ def check_lifecycle(plan, got, ref, V: Violations, counters: dict):
     C = plan["chains"]
     trans = ref["trans"]
     T = len(trans)
-    ids = [f"kernel_{k:02d}" for k in range(K)]
+    ids = W.kernel_ids(plan)
     if list(ref["events"]) != [tuple(e) for e in got["events"]]:
         V.add("script-events", "api", f"expected {ref['events']} got {got['events']}")
     infos = got["infos"]
